@@ -55,6 +55,10 @@ class K1(Exception):
     pass
 
 
+class K2(Exception):
+    """repetition inside one operation gave a different result"""
+
+
 # ---------------------------------------------------------------------------
 # canonical dumps
 # ---------------------------------------------------------------------------
@@ -165,9 +169,15 @@ def op_pipeline(data, serialize_kw):
             raise K1("source bytes changed by parse")
         # the same stream object, rewound, parses to the same tree again
         src.seek(0)
-        again = OFXTree().parse(src)
+        try:
+            again = OFXTree().parse(src)
+        except (sched.Deadlock, sched.StepCap):
+            raise
+        except Exception as e:      # noqa - the first parse succeeded, so this one must too
+            raise K2(f"parsing the same (rewound) stream a second time raises {type(e).__name__} "
+                     f"although the first parse succeeded")
         if dump_tree(again) != dump_tree(root):
-            raise K1("parsing the same (rewound) stream a second time gives a different tree")
+            raise K2("parsing the same (rewound) stream a second time gives a different tree")
         before = dump_tree(root)
         inst = t.convert()
         if dump_tree(root) != before:
@@ -363,6 +373,8 @@ def build_ops():
                     outcomes.append("ok")
                 except Exception as e:          # noqa
                     outcomes.append(type(e).__name__)
+            if len(set(outcomes)) > 1:
+                raise K2(f"{n} repetitions of the same work ({kind}) ended differently: {sorted(set(outcomes))}")
             final = op_pipeline(good, {"version": 203})()
             return {"outcomes": sorted(set(outcomes)), "final": final}
         return fn
@@ -428,6 +440,8 @@ def build_ops():
                     outcomes.append("ok")
                 except Exception as e:          # noqa
                     outcomes.append(type(e).__name__)
+            if len(set(outcomes)) > 1:
+                raise K2(f"{n} repetitions of the same work ({kind}) ended differently: {sorted(set(outcomes))}")
             final = op_pipeline(good, {"version": 203})()
             return {"outcomes": sorted(set(outcomes)), "final": final}
         return fn
@@ -449,7 +463,7 @@ def exec_op(name):
     fn = OPS_BY_NAME[name]
     try:
         r = fn()
-    except K1:
+    except (K1, K2):
         raise
     except (sched.Deadlock, sched.StepCap):
         raise
@@ -556,7 +570,7 @@ def prepare(tier="quick"):
                 os.close(r)
                 try:
                     d, short = exec_op(nm)
-                except K1 as e:
+                except (K1, K2) as e:
                     d, short = "K1", str(e)
                 os.write(w, json.dumps([d, short]).encode())
             finally:
@@ -629,6 +643,9 @@ class Threads:
             d, short = exec_op(name)
         except K1 as e:
             self.violate("K1-input-mutated", name.split(":")[0], f"{name} ({context}): {e}", op=name)
+            return
+        except K2 as e:
+            self.violate("K2-result-differs", "repetition", f"{name} ({context}): {e}", op=name)
             return
         self.judged += 1
         base = BASELINE[name]
